@@ -35,6 +35,11 @@ CHECKS = {
     text="TLC checks on Pipeline.tla that for every interleaving of 3 files x 2 workers the emitted item sequence equals the one of a canonical arrival order (holds for structs/enums/aliases/consts with distinct names; violated for same-name-same-kind items, which is the known finding). MC_C06 enumerates every tree of 3 (quick) / 4 (thorough, plus 6-file trees with all 720 orders) files over seven file templates together with every arrival permutation and the model's prediction; each permutation is forced on the real binary with TYPESHARE_VERIF_ORDER in single- and multi-file mode, languages rotated. Free runs vary the walker thread count 1..16, repeat fresh processes on a tree that hits the import-fallback hash-iteration site, and re-split the same items over files (one file, one file per item, by kind, reversed). Every run is one event (class, sha256 of all output bytes); Trace_C06 requires all events of a class to agree.",
     note="Trusted: TLC; sha256 of output files; the arrival-order hook buffers all results before folding (keyed by a marker struct at the top of each file). Hash seeds are sampled (12 / 40 processes), not enumerated. Known finding: same-name-same-kind duplicates follow arrival order. Fixed: 1d75015 (consts unsorted), 6f56816 (HashMap iteration in import fallback).",
     design_ref="6/C06"),
+ "C17": dict(
+    technique="TLA+ model of the compare-then-write store (Writer.tla) model-checked over all run histories; TLC-enumerated histories executed with the real binary into one output location; the snapshot after every run validated against the spec's Idempotent/Fresh by TLC (Trace_Writer.tla)",
+    text="TLC checks on Writer.tla, for every history of up to 4 runs over 4 abstract source versions (type changed, file disappears, helper file appears/disappears, an output becomes empty), that a re-run with unchanged sources changes neither content nor mtime and that every path the last run is responsible for holds the content a run into an empty location produces; with the pre-fix helper-file behaviour switched on TLC shows the Idempotent violation that was then reproduced on the real binary (fixed in 21da1da). MC_Writer enumerates every history up to 3 (quick) / 5 (thorough) runs; each maximal history is executed with the real binary, swapping the source tree between runs (type renamed/removed, moved between crates, unit type introduced/removed), in single- and multi-file mode for TypeScript and Swift (quick) / all six languages (thorough). After every run the output location is snapshotted (sha256, mtime_ns) and the whole history is judged by TLC.",
+    note="Trusted: TLC; sha256 + st_mtime_ns snapshots with >= 3 ms between runs; the fresh reference is produced by the same binary into an empty directory. Files that no run of the latest version writes (stale leftovers) are outside the property as stated.",
+    design_ref="6/C17"),
 }
 
 NOT_YET = "not built yet in this round (planned: see DESIGN.md section 6); no check is registered, nothing is claimed"
@@ -71,7 +76,7 @@ def main():
              "kind_free_text": "explicit TLA+ specifications (spec/*.tla) checked with TLC; TLC-enumerated cases replayed into the real typeshare code (harness/driver, hooked CLI) and recorded executions validated against the specifications by TLC"},
         ],
         "checks": checks,
-        "notes": "Fix commits in /repo: d7ce7e9 (C16), 1dc1d80 (C11), 47370c3 cdfed7c 284909f 436a798 e0dfe05 (C07), 1d75015 6f56816 (C06). Known findings: /verif/known_findings.jsonl. DESIGN.md describes layers P (judge), M (implementation models, predictions only) and B (binding).",
+        "notes": "Fix commits in /repo: d7ce7e9 (C16), 1dc1d80 (C11), 47370c3 cdfed7c 284909f 436a798 e0dfe05 (C07), 1d75015 6f56816 (C06), 21da1da (C17). Known findings: /verif/known_findings.jsonl. DESIGN.md describes layers P (judge), M (implementation models, predictions only) and B (binding).",
         "not_applicable": [{"property_id": p, "reason": NA.get(p, NOT_YET)} for p in ALL if p not in CHECKS],
     }
     json.dump(m, open(os.path.join(ROOT, "MANIFEST.json"), "w"), indent=1)
